@@ -13,7 +13,7 @@ HARNESSES = {
     'E-c06': dict(kind='enum', path='multi_record_log::verif_enum_c06::e_c06_histories', fn='e_c06_histories', bounded=True, bound='NATIVE EXHAUSTIVE ENUMERATION OF HISTORIES (cargo test, not symbolic): two queues, every history of at most 4 operations out of 11 (small / block-spilling append, truncate all / half, delete+recreate, reopen): 16104 histories on real 4-block WAL files; the C06 statement checked after every truncate / delete / open'),
     'E-hist': dict(kind='enum', tagged=True, path='multi_record_log::verif_enum_hist::e_hist_quick', fn='e_hist_quick', bounded=True, bound='NATIVE EXHAUSTIVE ENUMERATION OF HISTORIES (cargo test, not symbolic) against an executable reference model of the property texts, public API only: two queues; every history of 3 calls out of 22 (create / delete / append with automatic, next, last, past, future position and 1-record, empty-payload, 2-record, empty and 70 000-byte batches / truncate below, inside, at the end of, beyond the retained records / reopen) and every history of 5 calls out of 9 (the block-spilling, truncating, restarting ones): 69 697 histories under Always(Flush), a third each also under DoNothing and Always(FlushAndFsync); after EVERY call: return value, every accessor, every kind of range bound, memory accounting, directory content, reported WAL bytes against an independent walk over the frame headers; clean restart and process-crash image of fully persisted states'),
     'E-hist-deep': dict(kind='enum', tagged=True, timeout=5400, path='multi_record_log::verif_enum_hist::e_hist_deep', fn='e_hist_deep', bounded=True, bound='as E-hist, every history of 4 calls out of 22 and every history of 6 calls out of 9: 765 697 histories'),
-    'E-dmg': dict(kind='enum', tagged=True, path='multi_record_log::verif_enum_dmg::e_dmg', fn='e_dmg', bounded=True, bound='NATIVE EXHAUSTIVE ENUMERATION OF SINGLE-SITE DAMAGE (cargo test, not symbolic), public API + raw edits of the WAL files: 37 layouts (an entry ending / starting with 0,1,6,7,8,9,40 bytes left in its block; 1-, 2-, 3-frame entries; a 4-record batch with a record boundary before / on / after a frame boundary; delete + re-create; entries spanning a file boundary; truncations); for EVERY frame: payload byte flipped (first / middle / last), checksum byte flipped, every other type byte in {0..5,255}, length +-1 / 0 / 65535 / to the block end / one beyond, block zeroed, torn tail at 4 cut points: 7288 images opened; oracles C10 (no panic), C08 (only appended records), C12 (batch whole / none / minus a truncated head), C09 (confined damage costs one entry), C07+C01 (intact log reopens identical)'),
+    'E-dmg': dict(kind='enum', tagged=True, path='multi_record_log::verif_enum_dmg::e_dmg', fn='e_dmg', bounded=True, bound='NATIVE EXHAUSTIVE ENUMERATION OF SINGLE-SITE DAMAGE (cargo test, not symbolic), public API + raw edits of the WAL files: 38 layouts (an entry ending / starting with 0,1,6,7,8,9,40 bytes left in its block; 1-, 2-, 3-frame entries; a 4-record batch with a record boundary before / on / after a frame boundary; delete + re-create; entries spanning a file boundary; truncations); for EVERY frame: payload byte flipped (first / middle / last), checksum byte flipped, every other type byte in {0..5,255}, length +-1 / 0 / 65535 / to the block end / one beyond, block zeroed, torn tail at 4 cut points: 7517 images opened; oracles C10 (no panic), C08 (only appended records), C12 (batch whole / none / minus a truncated head), C09 (confined damage costs one entry), C07+C01 (intact log reopens identical)'),
     'E-gate': dict(kind='enum', path='rolling::directory::verif_enum::e_gate', fn='e_gate', bounded=True, bound='NATIVE EXHAUSTIVE ENUMERATION (cargo test, not symbolic): trackers of 1..=5 files (consecutive or gapped numbers), every subset pinned by a live clone: 124 cases'),
     'K-handles': dict(path='rolling::file_number::verif_kani::k_handles', fn='k_handles', bounded=True, bound='fixed shape: 3 appends over 2 files, truncate position symbolic in 0..=3'),
     'K-hdr': dict(path='frame::header::verif_kani::k_hdr_roundtrip', fn='k_hdr_roundtrip', bounded=False, bound='all 2^56 7-byte headers; loop-free'),
@@ -268,12 +268,21 @@ def write_replay(verif, prop, k):
     return p
 
 
-def narrow_tagged(rec, prop):
+def narrow_tagged(rec, prop, known=None):
     """A tagged enumeration (E-hist) reports failing cases with the ids of the properties they contradict.  For the check of `prop` only
     the cases tagged `prop` count; the others are listed as a note.  Returns the record, narrowed in place."""
     if 'tagged_fails' not in rec or rec.get('status') != 'FAILURE':
         return rec
     mine = [t for t in rec['tagged_fails'] if prop in t['tags']]
+    # known findings (known_findings.txt: `finding: property=<id> harness=<name> match=<literal text> ...`): failing cases whose line contains
+    # the literal are reported as KNOWN-FINDING, not as violations; any other failing case of the same property still is a violation
+    known = [k for k in (known or []) if k.get('property') == prop and k.get('harness') == rec['name'] and k.get('match')]
+    rec['known_findings'] = []
+    for k in known:
+        hit = [t for t in mine if k['match'] in t['line']]
+        if hit:
+            rec['known_findings'].append(dict(finding=k['text'], cases=len(hit), first=hit[0]['line'][:700]))
+            mine = [t for t in mine if k['match'] not in t['line']]
     other = [t for t in rec['tagged_fails'] if prop not in t['tags']]
     rec['other_properties_failing'] = sorted(set(x for t in other for x in t['tags']))
     if not rec['tagged_fails']:
@@ -282,7 +291,7 @@ def narrow_tagged(rec, prop):
         return rec
     if not mine:
         rec['status'] = 'SUCCESS'
-        rec['note'] = 'failing histories exist but none contradicts %s (they concern %s)' % (prop, ', '.join(rec['other_properties_failing']))
+        rec['note'] = ('only the listed known finding(s) fail for %s' % prop) if rec['known_findings'] else 'failing cases exist but none contradicts %s (they concern %s)' % (prop, ', '.join(rec['other_properties_failing']))
         for k in ('failed_checks', 'concrete', 'replayed'):
             rec.pop(k, None)
         return rec
